@@ -46,6 +46,12 @@ static void check_idn(const char *sub, const char *u) {
             continue;
         }
         if (!tld) MC_ADD(C_CONV_OK, 1);
+        /* IDNA maps a few code points to '@' or '[' (U+FF20, U+FE6B, U+FF3B, U+FE47 ...): then x@<converted name> does not have the converted
+         * name as its domain part any more, so there is no A-label observation to compare with; such a name is not a host name: rejected */
+        if (strchr(a, '@') || a[0] == '[') {
+            if (ou.rc >= 0) mc_violation(sub, "6531:accepts-name-that-converts-to-non-hostname", "", cfg, u, n, "converted name '%s' is not a host name but mode 6531 rc=%d", a, ou.rc);
+            continue;
+        }
         out_t oa = run(3, a, tld);
         if (ou.rc != oa.rc || ou.dom != oa.dom || ou.v4 != oa.v4 || ou.v6 != oa.v6)
             mc_violation(sub, "6531:u-label-vs-a-label", "", cfg, u, n, "U-label rc=%d flags %d%d%d ; A-label '%s' rc=%d flags %d%d%d", ou.rc, ou.dom, ou.v4, ou.v6, a, oa.rc, oa.dom, oa.v4, oa.v6);
@@ -190,6 +196,23 @@ static void shortpair_shard(long shard, void *arg) {
     for (int a = 0; a < 36; a++) for (int b = 0; b < 36; b++) { snprintf(d, sizeof d, "b.%c%c", AL[a], AL[b]); g_pred = p; check_idn("shortpair", d); g_pred = NULL; MC_ADD(C_NEG, 1); }
 }
 
+/* every Unicode scalar value U+0080..U+10FFFF as a label of its own and after a letter: the library's verdict on the U-label spelling follows the
+ * independent conversion for each single code point (a code-point-level filter in front of the converter shows here and nowhere else) */
+static void scalar_shard(long shard, void *arg) {
+    (void)arg; unsigned long lo = (unsigned long)shard * 0x1000, hi = lo + 0x1000;
+    for (unsigned long cp = lo; cp < hi; cp++) {
+        if (cp < 0x80 || (cp >= 0xd800 && cp <= 0xdfff)) continue;
+        char u[8], d[32]; int l = 0;
+        if (cp < 0x800) { u[l++] = (char)(0xc0 | (cp >> 6)); u[l++] = (char)(0x80 | (cp & 0x3f)); }
+        else if (cp < 0x10000) { u[l++] = (char)(0xe0 | (cp >> 12)); u[l++] = (char)(0x80 | ((cp >> 6) & 0x3f)); u[l++] = (char)(0x80 | (cp & 0x3f)); }
+        else { u[l++] = (char)(0xf0 | (cp >> 18)); u[l++] = (char)(0x80 | ((cp >> 12) & 0x3f)); u[l++] = (char)(0x80 | ((cp >> 6) & 0x3f)); u[l++] = (char)(0x80 | (cp & 0x3f)); }
+        u[l] = 0;
+        snprintf(d, sizeof d, "%s.com", u); check_idn("scalar", d);
+        snprintf(d, sizeof d, "a%s.com", u); check_idn("scalar", d);
+        MC_ADD(C_NEG, 2);
+    }
+}
+
 static int do_replay(void) {
     mc_replay_t r; if (mc_load_replay(mc_replay, &r)) return 2;
     mc_replay_hit = 0; char d[MC_CASEMAX + 1]; memcpy(d, r.in, (size_t)r.len); d[r.len] = 0; check_idn(r.sub, d);
@@ -210,8 +233,9 @@ int main(int argc, char **argv) {
     build_families();
     if (mc_replay) return do_replay();
     if (corpus_load()) return 2;
-    { static const int PH[] = { CP_LONGIDN, CP_ALTDOT, CP_LABELLEN };
-      for (unsigned i = 0; i < 3; i++) { L5PH = PH[i]; char nm5[80]; snprintf(nm5, sizeof nm5, "corpus: %.60s", corpus_name(L5PH)); mc_parallel(nm5, corpus_shards(L5PH), l5_shard, NULL); } }
+    { static const int PH[] = { CP_LONGIDN, CP_ALTDOT, CP_LABELLEN, CP_WHOLEDOM };
+      for (unsigned i = 0; i < sizeof PH / sizeof PH[0]; i++) { L5PH = PH[i]; char nm5[80]; snprintf(nm5, sizeof nm5, "corpus: %.60s", corpus_name(L5PH)); mc_parallel(nm5, corpus_shards(L5PH), l5_shard, NULL); } }
+    mc_parallel("scalars: every Unicode scalar value U+0080..U+10FFFF as a one-character label and after a letter, before .com", 0x110000 / 0x1000, scalar_shard, NULL);
     mc_parallel("pairs: every ordered pair of long domains sharing a >= 255-byte prefix, second one right after the first", 48, pair_shard, NULL);
     mc_parallel("pairs: every ordered pair of the 1296 domains b.XY, second one right after the first", 1296, shortpair_shard, NULL);
     mc_parallel("negatives: every 2-byte pattern inside a label, symbol/hyphen/length families", 256, neg_shard, NULL);
